@@ -193,3 +193,18 @@ package stanza
 //@ func (*stanza.StreamSession).IsOptional(s) (opt)
 //@   requires s != nil
 //@   ensures [C03.feature.session] opt == (s.XMLName.Local != "session" || s.Optional != nil)
+
+// ---------------------------------------------------------------------------
+// C16 / C03: stream opening
+//@ pred isOpen(t) := isSE(t, NSStream, "stream") || isSE(t, NSFraming, "open")
+//@ pred idOf(attrs, id) := (forall(k, 0, len(attrs), attrs[k].Name.Local != "id") && id == "") || exists(k, 0, len(attrs), attrs[k].Name.Local == "id" && id == attrs[k].Value && forall(j, k + 1, len(attrs), attrs[j].Name.Local != "id"))
+//@ func stanza.InitStream(p) (sessionID, err)
+//@   requires p != nil
+//@   ensures [C16.initstream.open] err == nil ==> count(TokenRead) > old(count(TokenRead)) && isOpen(last(TokenRead)) && idOf(last(TokenRead).(xml.StartElement).Attr, sessionID)
+//@   ensures [C16.initstream.first] forall(j, old(count(TokenRead)), count(TokenRead) - 1, typeof(arg(TokenRead, j)) != xml.StartElement)
+//@   emits TokenRead
+//@   loop 1:
+//@     invariant count(TokenRead) >= old(count(TokenRead)) && forall(j, old(count(TokenRead)), count(TokenRead), typeof(arg(TokenRead, j)) != xml.StartElement)
+//@   loop 2:
+//@     invariant 0 <= $i && $i <= len($range) && idOf($range[:$i], sessionID)
+//@     decreases len($range) - $i
